@@ -25,7 +25,7 @@ var checkSpecs = map[string]*checkSpec{
 		}, kcpStateAssumptions...),
 		stubs: commonStubs,
 		bounds: map[string]string{
-			"quick":    "L1: Send of 0..7 symbolic bytes with MSS 1..3, stream and message mode, from 3 shapes, and of 254..300 bytes at MSS 1 (fragment limit); L2: full flush from 3 shapes, every emitted PUSH decoded independently and compared with the in-flight segment it names; L4: Recv with buffers 0,1,2,8 from 4 receive shapes with symbolic fragment numbers",
+			"quick":    "L1: Send of 0..7 symbolic bytes with MSS 1..3, stream and message mode, from 3 shapes, and of 254..300 bytes at MSS 1 (fragment limit); L2: full flush from 3 shapes, every emitted PUSH decoded independently and compared with the in-flight segment it names; L4: Recv with buffers 0,1,2,8 from 4 receive shapes with symbolic fragment numbers; S3 scenario: two real endpoints, MSS 2, two writes (3+1 symbolic bytes), stream and message mode, windows {1,3}x{1,2}, symbolic origins of both sequence spaces and the clock, every fate in {drop, deliver, duplicate, delay one round} for the first 4 datagrams (thorough 6) then a fair network, <= 40 rounds: reader sees a prefix at every step, everything delivered intact, backlog drains",
 			"thorough": "same",
 		},
 		outside: "real sockets and goroutine scheduling; ciphers (C08) and FEC arithmetic (C07) are separate modules; payloads longer than 7 bytes",
@@ -38,7 +38,7 @@ var checkSpecs = map[string]*checkSpec{
 		}, kcpStateAssumptions...),
 		stubs: commonStubs,
 		bounds: map[string]string{
-			"quick":    "W1/W4 flush timers from 3 sender shapes, cc on and off; W2 Input of an arbitrary PUSH (symbolic sn incl. duplicates and numbers below rcv_nxt) from 5 receive shapes, and flush with 1..3 owed acks; W5 Check/Update at an arbitrary clock from 3 shapes; W3 is the nothing-deliverable-stuck assertion of the C04 Input/Recv steps",
+			"quick":    "W1/W4 flush timers from 3 sender shapes, cc on and off; W2 Input of an arbitrary PUSH (symbolic sn incl. duplicates and numbers below rcv_nxt) from 5 receive shapes, and flush with 1..3 owed acks; W5 Check/Update at an arbitrary clock from 3 shapes; W3 is the nothing-deliverable-stuck assertion of the C04 Input/Recv steps; bounded liveness: the C01 scenario asserts that the backlog drains within 40 rounds after at most 4 (thorough 6) faulty datagrams",
 			"thorough": "same",
 		},
 		outside: "the scheduler's own timing (C17); fault patterns longer than the scenario bound",
@@ -47,7 +47,7 @@ var checkSpecs = map[string]*checkSpec{
 		assumptions: kcpStateAssumptions,
 		stubs:       commonStubs,
 		bounds: map[string]string{
-			"quick":    "P1 flush with the peer's window closed from 4 shapes (cc on/off): nothing admitted or dropped, probe timer armed in [500,120000], WASK whenever expired, back-off monotone; P2/P3 Input(WASK) then flush emits WINS with the true free space, Recv that frees a full queue sets the tell flag (C04 Recv step); P4 any regular segment with wnd>0 clears the probe state and admits queued data",
+			"quick":    "P1 flush with the peer's window closed from 4 shapes (cc on/off): nothing admitted or dropped, probe timer armed in [500,120000], WASK whenever expired, back-off monotone; P2/P3 Input(WASK) then flush emits WINS with the true free space, Recv that frees a full queue sets the tell flag (C04 Recv step); P4 any regular segment with wnd>0 clears the probe state and admits queued data; S3 scenario: receiver window 1-2, reader pauses 2-4 rounds while 3 segments are written, every fate for the 4 datagrams around the resume point (thorough 5), cc on/off, symbolic origins: no loss, bounded buffering, completion within 60 rounds",
 			"thorough": "same",
 		},
 		outside: "pauses longer than the scenario bound in the end-to-end runs (the lemma P1 covers any length)",
@@ -61,7 +61,7 @@ var checkSpecs = map[string]*checkSpec{
 		stubs: commonStubs,
 		bounds: map[string]string{
 			"quick":    "one step (Input of an arbitrary datagram of 0..96 bytes holding at most one complete segment, both packet types, both ackNoDelay; flush FULL/ACKONLY; Recv with buffers 0,1,3,8; Send of 0..9 bytes) from every state of 7 (flush/Recv/Send) or 5+4 (Input) queue shapes with |snd_buf|,|snd_queue|,|rcv_queue|,|rcv_buf|,|acklist| <= 2; MTU in {50,60,1400} (cc: {25,28,1400})",
-			"thorough": "same steps from the full product of shapes (each queue 0..2), datagrams with up to two segments",
+			"thorough": "same steps from the full product of shapes (each queue 0..2), datagrams with up to two segments; timeout-admission scenario (cc on, fast resend 2, 3 in flight, 6 writes, every fate for the first 4 datagrams, 14 rounds) in both tiers",
 		},
 		outside: "changing window sizes mid-traffic; the timeout-admission clause across several calls and UDPSession.Write admission are separate harnesses (see DESIGN.md)",
 	},
@@ -132,6 +132,57 @@ var checkSpecs = map[string]*checkSpec{
 		},
 		outside: "GF(2^8) arithmetic; interleaving with more than the neighbouring groups; payloads longer than 3 bytes (the FEC layer does not interpret the body)",
 	},
+	"C12": {
+		assumptions: append([]string{
+			"relational (2-safety) step: second copy of the same symbolic state shifted by fully symbolic ds (own numbers), dr (peer's numbers), dt (every live timestamp and the clock); whether a timestamp is live (segment already transmitted, probe armed, Update called) is case-split",
+			"the fault model is loss/duplication/delay/reordering of genuine datagrams: an incoming ACK never names or passes a segment that was not transmitted yet; the peer's own timestamps are opaque values",
+			"windows <= 32768 (the signed-difference discipline needs < 2^31); FEC id wrap: C07 harness positions (last group before paws, across and at 2^31)",
+			"induction over steps (invariance of whole histories) is the written argument; the two-endpoint scenarios run with symbolic origins of both sequence spaces and of the clock as an end-to-end check",
+		}, kcpStateAssumptions...),
+		stubs: commonStubs,
+		bounds: map[string]string{
+			"quick":    "Input of one arbitrary segment (cmd in PUSH/ACK/WASK/WINS, symbolic fields, payload 0..2, optional trailing garbage) from 2 receive and 2 send shapes; flush FULL/ACKONLY from 2 shapes (cc off) and FULL from 2 shapes with cc on (MSS 4); Check+Update from 2 shapes; Recv+Send from 3 shapes: return values equal (Check: shifted), post-states and every emitted datagram (decoded independently) related by the same shifts",
+			"thorough": "full shape product",
+		},
+		outside: "states in which a never-transmitted segment is named by an ACK (forged); shapes beyond 2 per queue",
+	},
+	"C13": {
+		assumptions: []string{
+			"schedules are explored by the executor's scheduler within a delay bound (quick 1, thorough 2): context switches only at synchronisation operations, which loses no behaviour of a data-race-free program (race freedom of the shared state is C14's subject); the solver decides data- and time-dependent branches, the schedule and event choices are enumerated decisions",
+			"virtual time; every timer delivery 1 microsecond late",
+			"goroutine-mode counterexamples are confirmed by concrete re-execution of the recorded decision sequence inside gse (no native twin for a schedule)",
+		},
+		stubs: []string{"goroutines: cooperative scheduler inside the executor (context switches only at channel operations, select, close, mutex lock/unlock, go, timer operations, goroutine exit; delay-bounded deviations from a deterministic round-robin default)", "time: virtual clock that advances only when every goroutine is blocked; time.NewTimer/Stop/Reset modelled with both Go timer-channel semantics (Go>=1.23 synchronous: Stop/Reset discard an unreceived tick and report it as pending; asynctimerchan=1: the stale tick stays buffered); every delivery is 1 microsecond late", "sockets: harness types whose ReadFrom parks until failed", "see C06 for the session-level stubs"},
+		bounds: map[string]string{
+			"quick":    "real UDPSession / Listener over stub sockets; 1-2 goroutines blocked in the real Read / Write (full window) / AcceptKCP, deadline set before blocking or not; 1-2 events from {data or ACK or new peer arrives, deadline set (+10 ms), cleared, set in the past, Close, socket error}, each followed by run-to-quiescence, then 50 ms of virtual time: nobody stays blocked while data/window/backlog is available, close/error/deadline wake every caller, a timeout is never reported before the earliest deadline ever in force, Read drains received data after Close and then fails, Write fails after Close, second Close reports an error",
+			"thorough": "delay bound 2",
+		},
+		outside: "more than 2 blocked callers / 2 events; pre-emptions beyond the bound; real-time latency",
+	},
+	"C15": {
+		assumptions: []string{
+			"ownership: the pool stub gives every acquisition an identity; a second Put and any read/write/copy touching a recycled buffer is reported on every path of every harness of every property (labels pool/double-put, pool/use-after-put); contents of a fresh Get are unconstrained so stale bytes show up as failed equalities in C01/C07/C09",
+			"goroutine release: same scheduler model and bound as C13",
+		},
+		stubs: []string{"goroutines: cooperative scheduler inside the executor (context switches only at channel operations, select, close, mutex lock/unlock, go, timer operations, goroutine exit; delay-bounded deviations from a deterministic round-robin default)", "time: virtual clock that advances only when every goroutine is blocked; time.NewTimer/Stop/Reset modelled with both Go timer-channel semantics (Go>=1.23 synchronous: Stop/Reset discard an unreceived tick and report it as pending; asynctimerchan=1: the stale tick stays buffered); every delivery is 1 microsecond late", "sockets: harness types whose ReadFrom parks until failed", "see C06 for the session-level stubs"},
+		bounds: map[string]string{
+			"quick":    "client session + listener + accepted session over stub sockets with the real TimedSched, optional traffic, Close of client / accepted session / listener in 3 rotations each followed by 200 ms of virtual time, then socket failure and scheduler Close: no library goroutine left, no update callback pending; FEC decoder false-alarm re-tune with held shards followed by recovery; plus the ghost ownership assertions active in all other harnesses of this run's evidence",
+			"thorough": "delay bound 2",
+		},
+		outside: "the real sync.Pool and the garbage collector",
+	},
+	"C17": {
+		assumptions: []string{
+			"same scheduler model as C13; 'submitted before close' is read as: the scheduler is not closed before the task's deadline",
+			"symbolic-deadline harnesses: deadlines are symbolic offsets in [-1h,+1h] and the solver case-splits every comparison made by the scheduler code and the timer model (past/now/equal/increasing/decreasing/beyond the horizon arise as solver cases); the deeper-schedule harnesses take deadlines from {-5 ms, 0, 10 ms, 20 ms, 1 h}",
+		},
+		stubs: []string{"goroutines: cooperative scheduler inside the executor (context switches only at channel operations, select, close, mutex lock/unlock, go, timer operations, goroutine exit; delay-bounded deviations from a deterministic round-robin default)", "time: virtual clock that advances only when every goroutine is blocked; time.NewTimer/Stop/Reset modelled with both Go timer-channel semantics (Go>=1.23 synchronous: Stop/Reset discard an unreceived tick and report it as pending; asynctimerchan=1: the stale tick stays buffered); every delivery is 1 microsecond late", "sockets: harness types whose ReadFrom parks until failed", "see C06 for the session-level stubs"},
+		bounds: map[string]string{
+			"quick":    "real NewTimedSched with 1-2 workers, real prepend/sched goroutines, 1-2 submitter goroutines calling the real Put for 3 tasks, both timer-channel semantics, delay bound 1, 50 ms of virtual time: never early, at most once, every due task has run, future tasks have not, Close stops every goroutine",
+			"thorough": "4 tasks (enumerated deadlines), delay bound 2",
+		},
+		outside: "more than 2 workers (they share nothing but the unbuffered channel); real-time latency of the Go runtime",
+	},
 	"C14": {
 		assumptions: []string{
 			"what is decided is the lock discipline G1-G4 of DESIGN.md §4 C14 on every feasible path of every entry point (a sufficient condition for race freedom of the locations it covers, by the lock-set argument); interleavings are not enumerated",
@@ -185,10 +236,10 @@ var checkSpecs = map[string]*checkSpec{
 		assumptions: kcpStateAssumptions,
 		stubs:       commonStubs,
 		bounds: map[string]string{
-			"quick":    "(a) RTO bounds: update_ack for every rtt, srtt, rttvar >= 0 (single merged path, all 2^93 value combinations); Input of an arbitrary one-segment datagram at an arbitrary clock from 3 sender shapes; NewKCP and NoDelay with arbitrary arguments",
+			"quick":    "(a) RTO bounds: update_ack for every rtt, srtt, rttvar >= 0 (single merged path, all 2^93 value combinations); Input of an arbitrary one-segment datagram at an arbitrary clock from 3 sender shapes; NewKCP and NoDelay with arbitrary arguments; (b) timer lemmas: C02 flush-timer harness; (c) clean-path scenario: two real endpoints, lossless FIFO network, reader keeping up, symbolic origins, stream/message, cc on/off, resend 0..2, nodelay 0/1: no retransmission and no repeated segment",
 			"thorough": "same",
 		},
-		outside: "clause (b)/(c) no-retransmission-on-a-clean-path lemmas and scenario: see harness list in the evidence; not covered until they appear there",
+		outside: "clean-path scenario bounds: <= 3 writes of 1..3 bytes at MSS 2, windows 1..4, flush period 10 or 20 ms with the whole round trip inside one period, 16 rounds",
 	},
 	"C20": {
 		assumptions: []string{
